@@ -36,6 +36,15 @@ CHECKS = {
         "and still replayed. Trusted: translator (validated every run), z3.",
         "DESIGN.md 3/C16",
     ),
+    "C08": (
+        "model_checking",
+        "regex -> z3 compilation (E-RX) of the built master regex: per-rule verification conditions (non-empty matches, newline containment, reference literal grammars included in the right class under first-match, keywords, maximal munch) decided by z3; CrossHair symbolic execution of every t_* body (symbolic text, symbolic line counter) and of _fill_tokbuf over a stub lexer",
+        "Each VC is decided by z3 for all code-point strings up to the bound at a token start with arbitrary right context; the rule functions are confirmed by CrossHair over all paths "
+        "for all texts of the rule's language up to the length bound and all line numbers; _fill_tokbuf is confirmed against a reference over all raw token strings up to the bound.",
+        "Bound: 6 (quick) / 9 (thorough) code points per VC, rule texts <=5..14 characters, _fill_tokbuf <=4 / <=6 raw tokens over 9 kinds. Literals longer than the bound are covered only "
+        "by the inductive shape of the VCs. Reference grammars = C++ lexical grammar restricted to the forms the property lists. Trusted: translator (validated every run), z3, CrossHair.",
+        "DESIGN.md 3/C08",
+    ),
 }
 
 NOT_YET = "no check landed yet in this build (planned engine and bounds: DESIGN.md section 3); not claimed until the check runs green"
